@@ -1460,7 +1460,9 @@ func (sc *serverConn) processFrame(f Frame) error {
 	// stream sent in a GOAWAY, or all frames after sending an error.
 	// We still need to return connection-level flow control for DATA frames.
 	// RFC 9113 Section 6.8.
-	if sc.inGoAway && (sc.goAwayCode != ErrCodeNo || f.Header().StreamID > sc.maxClientStreamID) {
+	// (Streams the server itself initiated by PUSH_PROMISE have even identifiers
+	// and stay in service during a graceful shutdown.)
+	if sc.inGoAway && (sc.goAwayCode != ErrCodeNo || f.Header().StreamID%2 == 1 && f.Header().StreamID > sc.maxClientStreamID) {
 
 		if f, ok := f.(*DataFrame); ok {
 			if !sc.inflow.take(f.Length) {
